@@ -240,34 +240,69 @@ pub fn guarded<T>(f: impl FnOnce() -> T) -> Result<T, String> {
 static HEARTBEAT: AtomicU64 = AtomicU64::new(0);
 static CUR_BATCH: AtomicUsize = AtomicUsize::new(0);
 static CUR_CASE: Mutex<Option<Value>> = Mutex::new(None);
-pub const CASE_WALL_LIMIT_S: u64 = 20;
+/// A case is declared hanging when the worker has burnt this much CPU time without a heartbeat. CPU time, not wall
+/// time: on a loaded machine a healthy worker may be descheduled for long, and that must never look like a hang.
+pub const CASE_CPU_LIMIT_S: f64 = 40.0;
+/// wall-clock backstop (reported as a machinery failure, never as a verdict)
+pub const CASE_WALL_LIMIT_S: u64 = 1800;
 
-/// Called by engines at the start of every case (cheap: one atomic increment).
+/// Called by engines at the start of every case and inside long machinery phases (cheap: one atomic increment).
 #[inline]
 pub fn beat() {
     HEARTBEAT.fetch_add(1, Ordering::Relaxed);
 }
 
-/// Called by engines that can afford it, so that a hang can be turned into a replay record.
+/// Called by engines when they start executing the code under test on a case, so that a hang can be turned into
+/// a replay record; `clear_current_case` marks machinery phases (a hang there is never a verdict).
 pub fn set_current_case(v: Value) {
     if let Ok(mut g) = CUR_CASE.lock() {
         *g = Some(v);
     }
+}
+pub fn clear_current_case() {
+    if let Ok(mut g) = CUR_CASE.lock() {
+        *g = None;
+    }
+}
+
+/// CPU seconds (user + system) consumed by this process so far
+fn cpu_seconds() -> f64 {
+    if let Ok(s) = std::fs::read_to_string("/proc/self/stat") {
+        // fields after the command name (which may contain spaces): skip to the last ')'
+        if let Some(p) = s.rfind(')') {
+            let f: Vec<&str> = s[p + 1..].split_whitespace().collect();
+            if f.len() > 13 {
+                let ut: f64 = f[11].parse().unwrap_or(0.0);
+                let st: f64 = f[12].parse().unwrap_or(0.0);
+                return (ut + st) / 100.0;
+            }
+        }
+    }
+    -1.0
 }
 
 fn start_watchdog() {
     std::thread::spawn(|| {
         let mut last = HEARTBEAT.load(Ordering::Relaxed);
         let mut since = Instant::now();
+        let mut cpu_at = cpu_seconds();
         loop {
             std::thread::sleep(Duration::from_millis(500));
             let now = HEARTBEAT.load(Ordering::Relaxed);
             if now != last {
                 last = now;
                 since = Instant::now();
-            } else if since.elapsed().as_secs() >= CASE_WALL_LIMIT_S {
+                cpu_at = cpu_seconds();
+                continue;
+            }
+            let cpu = cpu_seconds();
+            let burnt = if cpu >= 0.0 && cpu_at >= 0.0 { cpu - cpu_at } else { since.elapsed().as_secs_f64() / 4.0 };
+            let wall = since.elapsed().as_secs();
+            if burnt >= CASE_CPU_LIMIT_S || wall >= CASE_WALL_LIMIT_S {
                 let case = CUR_CASE.lock().ok().and_then(|g| g.clone()).unwrap_or(Value::Null);
-                let out = json!({"hang": true, "batch": CUR_BATCH.load(Ordering::Relaxed), "heartbeat": now, "case": case});
+                let out = json!({"hang": true, "batch": CUR_BATCH.load(Ordering::Relaxed), "heartbeat": now, "case": case,
+                                 "cpu_seconds_without_heartbeat": burnt, "wall_seconds_without_heartbeat": wall,
+                                 "by": if burnt >= CASE_CPU_LIMIT_S { "cpu" } else { "wall" }});
                 println!("HANG {}", out);
                 let _ = std::io::stdout().flush();
                 std::process::exit(3);
@@ -385,11 +420,12 @@ pub fn run_engine(engine: &dyn Engine, ctx: &Ctx) -> RunResult {
         match r {
             Some(WorkerOutcome::Done(r)) => report.merge(r),
             Some(WorkerOutcome::Hang(v)) => {
-                if engine.hang_is_violation(&ctx.prop) {
+                let in_case = !v["case"].is_null() && v["by"] == "cpu";
+                if engine.hang_is_violation(&ctx.prop) && in_case {
                     let case = json!({"hang": v, "group_lo": g * group, "group_hi": ((g + 1) * group).min(nb)});
-                    report.violation(&ctx.prop, engine.name(), case, format!("code under test did not return within {} s", CASE_WALL_LIMIT_S));
+                    report.violation(&ctx.prop, engine.name(), case, format!("the code under test did not return after {} s of CPU time on one case", CASE_CPU_LIMIT_S));
                 } else {
-                    failures.push(format!("watchdog: a case did not finish within {} s: {}", CASE_WALL_LIMIT_S, v));
+                    failures.push(format!("watchdog: no progress ({} s CPU / {} s wall limit): {}", CASE_CPU_LIMIT_S, CASE_WALL_LIMIT_S, v));
                 }
             }
             Some(WorkerOutcome::Crash(m)) => failures.push(m),
